@@ -1,7 +1,81 @@
 (** C01 -- every spelling of an intended invocation parses to exactly that
     invocation.  Statements only; [spell], [expected], [admissible] are in
     Spec/C01Spec.v, proofs in Proofs/C01_*.v. *)
-From InvokeVerif Require Import Corr.C01Corr Proofs.C01_witness.
+From InvokeVerif Require Import Corr.C01Corr Proofs.C01_witness Proofs.C01_steps Proofs.C01_occ
+     Proofs.C01_roundtrip Proofs.C01_final Model.SigToCtx Proofs.C01_sig_bridge.
+
+(** The round trip, proved part.  [simple_guard cs ic inv]: the parser is
+    well-formed ([parser_ok]: named tasks, distinct names/aliases), the initial
+    context needs no positional, there is at least one call, and every call
+    - names its task by primary name or alias (a plain word),
+    - the task satisfies [ctx_guard]: pairwise distinct, well-formed flag
+      spellings, distinct parameter names, no required positional, no non-empty
+      list default,
+    - every item is one occurrence in one of the forms
+        --flag | --no-flag                       (booleans)
+        --name value | -n value | --name=value | -n=value
+                                                 (non-optional str / int / list arguments,
+                                                  lists repeated in any order, single-valued
+                                                  arguments given at most once, int values
+                                                  [+-]?[0-9]+, values not starting with "-"),
+      occurrences in ANY order, any number of calls chained, same task repeated.
+    Then the spelled command line parses, with ANY such initial context, to the
+    untouched initial context followed by exactly the expected calls: each
+    with its primary name, the intended values typed by kind, declared defaults
+    for everything else; nothing unparsed, no remainder.
+    MISSING for full strength (covered only by the bounded sweep below and by the
+    correspondence): glued short values, positionals by position, counters,
+    clusters, optional-value flags, dash-leading values; and the two findings. *)
+Theorem C01_spell_roundtrip_partial : forall cs ic inv,
+  simple_guard cs ic inv = true ->
+  exists r,
+    parser_parse cs (Some ic) false (spell cs inv) = Ok r /\
+    hd_error (pr_ctxs r) = Some (init_ctx ic) /\
+    map obs_of_ctx (tl (pr_ctxs r)) = expected cs inv /\
+    pr_unparsed r = [] /\ pr_remainder r = "".
+Proof. exact spell_roundtrip_simple. Qed.
+
+(** The same in the flagship shape: on the fragment, the model satisfies the
+    executable specification (with the real core context as initial context). *)
+Theorem C01_model_satisfies_spec_partial : forall cs inv,
+  simple_guard cs core_ctx inv = true -> model_roundtrip cs inv = true.
+Proof. exact model_roundtrip_simple. Qed.
+
+(** "No token is attributed to a neighbouring task", one machine step at a
+    time: the tokens of one occurrence take the machine from a quiescent state
+    [MS i0 done cur ..] to a quiescent state in which only the current context
+    changed, by exactly [run_occ]; the initial context [i0] and the finished
+    contexts [done] are untouched. *)
+Theorem C01_occurrence_frame_partial : forall cs p i0 c given o done cur fl got,
+  p_ctxs p = cs ->
+  ctx_guard c = true -> occ_simple c given o = true ->
+  st_ok c given (rc_args cur) -> inert (MS i0 done cur fl got) ->
+  exists fl' got',
+    steps p (MS i0 done cur fl got) (spell_occ c o)
+            (MS i0 done (with_args cur (run_occ (rc_args cur) o)) fl' got') /\
+    inert (MS i0 done (with_args cur (run_occ (rc_args cur) o)) fl' got') /\
+    st_ok c (given_after given o) (run_occ (rc_args cur) o).
+Proof. exact occ_steps. Qed.
+
+(** The static part of the guard is not vacuous for real signatures: contexts
+    built from well-formed task signatures (C09's guard + no required
+    positional + plain list defaults) satisfy [ctx_guard]. *)
+Theorem C01_wf_ctxs_of_wf_sigs : forall ts,
+  forallb task_ok ts = true ->
+  exists cs, ctxs_of_tasks ts = Ok cs /\
+             map cx_name cs = map (fun t => Some (t_name t)) ts /\
+             map cx_aliases cs = map t_aliases ts /\
+             forallb ctx_guard cs = true.
+Proof. exact wf_ctxs_of_wf_sigs. Qed.
+
+(** Non-vacuity: a three-call chain (alias, 5 parameters of 4 kinds, a value
+    equal to a task name, repeated list flag, repeated task) is inside the
+    guard, and inside the property's side condition. *)
+Example C01_guard_inhabited :
+  simple_guard ex_cs core_ctx ex_inv = true /\ admissible ex_cs ex_inv = true /\
+  spell ex_cs ex_inv = ["b"; "-i"; "a"; "--clean"; "--jobs=4"; "--inc-dir=b"; "--no-color";
+                        "-n"; "deploy"; "deploy"; "-t=prod"; "build"].
+Proof. exact example_guard. Qed.
 
 (** The full statement
       forall cs inv, admissible cs inv = true -> model_roundtrip cs inv = true
